@@ -2,7 +2,7 @@ HOOK_COMMITS = ['c1c434b', '878b954']
 NOTES = ('All checks are driven by bin/check <ID> --tier quick|thorough; exit 0/1/2 as described in DESIGN.md 2.4. '
          'known_findings.json lists recorded defects and fixed ones.')
 _pending = 'check not built yet in this revision (see DESIGN.md); will be claimed when its specification and harness exist'
-for _p in ['C02','C03','C04','C05','C06','C10','C11','C13']:
+for _p in ['C03','C05','C06','C11','C13']:
     NA[_p] = _pending
 NA['C01'] = ('power balance needs numerical integration of the reported pattern over the sphere and a 1.5 % physical '
              'tolerance of the true kernel: numeric accuracy with no discrete content, nothing a TLA+ specification can decide (DESIGN.md section 5)')
@@ -134,3 +134,37 @@ check('C08', 'exploration',
       'Exploration level: weights and conductor halves by TLC; load values, forms and frequencies seeded. Skin effect with |k r| >= 100 is compared '
       'at 2 % (documented asymptote of the program), otherwise 1e-8 of the summed term magnitudes.',
       'TLC on Circuit.tla for weights/halves + replay of seeded load sets against independent closed forms', 'DESIGN.md 4 C08, 3.3')
+
+_sur = ('Sub-statement: the accuracy of the kernel quadrature inside psi (the 1e-4 / 1 % clauses against an independent numerical '
+        'integration) is NOT decided; a change confined to the numerics of Mininec.psi / integral_i2_i3 is invisible to this check. ')
+check('C02', 'model_checking',
+      'Structural sub-statement of C02: every entry of the matrix is the published MININEC-3 combination of potential terms (vector potential of '
+      'the two half segments of the source pulse tested along the observer pulse, scalar-potential differences of its two charged segments at '
+      'the observer half-segment ends, minus the image terms over ground except for source pulses on the plane), for ALL pulse pairs. The '
+      'harness replaces Mininec.psi in its own process by the exact line integral of R^2 (polynomial surrogate kernel with the three properties '
+      'the fill optimisations rely on; calling contract of psi honoured) and runs the unmodified compute_impedance_matrix(); the expected matrix '
+      'is evaluated from the pulse table of spec/Topology.tla (TLC, every configuration) on seeded lattice coordinates, with tapered wires in '
+      'half of the cases; agreement 1e-10 of max|Z|. Exercises the copy / diagonal / lower-triangle optimisations and the image loop.',
+      _sur + 'The arithmetic of the formulation is evaluated by harness/lattice.py in floating point (not by TLC); TLC supplies the discrete '
+      'pulse table. Radius >= 1e-4 wavelength (every term goes through psi).',
+      'TLC pulse tables (Topology.tla) + surrogate-kernel evaluation of the formulation vs the real matrix fill', 'DESIGN.md 4 C02, 1')
+check('C04', 'model_checking',
+      '(A) structural sub-statement: with the surrogate kernel installed the real compute_near_field, run with injected complex currents, must '
+      'reproduce the closed-form E and H of the pulse currents and their charges (image currents over ground) evaluated from the pulse table '
+      'of spec/Topology.tla on seeded lattice coordinates (straight, bent, branched, end-1/end-1 and end-2/end-2 junctions, tapered unequal '
+      'segments, wires grounded at either end, power scaling) to 1e-9 of the summed contribution magnitudes. (B) with the true kernel on six '
+      'solved antennas at 1000 wavelengths: transverse near field = reported far-field-absolute value (2.5 % of the pattern maximum), '
+      '|E|/|H| = 376.7 ohm (0.5 %), radial components below 3 %, fields scale with sqrt(power).',
+      _sur + 'Part (B) thresholds are set by the discretisation error of lambda/12 .. lambda/20 segments (the residual does not shrink with '
+      'distance); the property states no tolerance for the far-zone limit.',
+      'TLC pulse tables + surrogate-kernel closed forms vs the real near-field code; far-zone relations on solved antennas', 'DESIGN.md 4 C04, 1')
+check('C10', 'model_checking',
+      'Clause 1 (moment at the pulse point): the radiation sum is evaluated by harness/lattice.py from the pulse table of spec/Topology.tla '
+      '(TLC, every configuration; image terms and the grounded-pulse rule over ground; tapered wires in half of the cases) on seeded lattice '
+      'coordinates; the real compute_far_field with injected complex currents must reproduce e_theta / e_phi to 1e-9 of the maximum and the '
+      'dBi values to 1e-3 dB at arbitrary directions, powers and distances. Relations: gain = |E|^2 r^2 / (59.96 P) per polarisation between '
+      'the two tables, total = power sum, V/m ~ sqrt(P)/r, rows 360 degrees apart identical, zenith total independent of azimuth.',
+      'The 2 % comparison with the exact integral over the straight half segments is not checked separately: given clause 1 it is a statement '
+      'of mathematics (sin(x)/x factor below 0.13 % for segments up to lambda/18). The sum is evaluated in floating point by the harness, TLC '
+      'supplies the discrete pulse table.',
+      'TLC pulse tables + independent radiation sum vs the real far-field code with injected currents', 'DESIGN.md 4 C10')
